@@ -92,18 +92,41 @@ def fmtOptNat : Option Nat → String
   | none => "-"
   | some n => fmtNat n
 
-/-- integer view of the loaded parts; `j` = position among the kept parts = sanitized track number -/
-def fmtPartInt (jp : RTrack × Nat) : String :=
-  let p := jp.1; let j := jp.2
+/-- integer view of the loaded parts; every note, control and program carries the track number
+    `sanitize_track_numbers` gives it (`nums`: notes first, then controls, then programs) -/
+def fmtPartInt (pn : RTrack × List (Option Nat)) : String :=
+  let p := pn.1
+  let nn := pn.2.take p.notes.length
+  let nc := (pn.2.drop p.notes.length).take p.controls.length
+  let np := pn.2.drop (p.notes.length + p.controls.length)
   fmtTuple [
     fmtNat p.fileTrack,
-    fmtList (fun (n : RNote × Nat) => fmtTuple [fmtNat n.2, fmtNat n.1.pitch, fmtInt n.1.on, fmtInt n.1.off,
-      fmtNat n.1.vel, fmtNat n.1.ch, fmtNat j]) p.notes.zipIdx,
-    fmtList (fun c => fmtTuple [fmtInt c.1, fmtNat c.2.1, fmtNat c.2.2.1, fmtNat c.2.2.2, fmtNat j]) p.controls,
-    fmtList (fun c => fmtTuple [fmtInt c.1, fmtNat c.2.1, fmtNat c.2.2, fmtNat j]) p.programs,
+    fmtList (fun (n : (RNote × Nat) × Option Nat) => fmtTuple [fmtNat n.1.2, fmtNat n.1.1.pitch, fmtInt n.1.1.on,
+      fmtInt n.1.1.off, fmtNat n.1.1.vel, fmtNat n.1.1.ch, fmtOptNat n.2]) (p.notes.zipIdx.zip nn),
+    fmtList (fun c => fmtTuple [fmtInt c.1.1, fmtNat c.1.2.1, fmtNat c.1.2.2.1, fmtNat c.1.2.2.2, fmtOptNat c.2])
+      (p.controls.zip nc),
+    fmtList (fun c => fmtTuple [fmtInt c.1.1, fmtNat c.1.2.1, fmtNat c.1.2.2, fmtOptNat c.2]) (p.programs.zip np),
     fmtList (fun c => fmtTuple [fmtInt c.1, fmtNat c.2.1, fmtNat c.2.2, fmtNat p.fileTrack]) p.timeSigs,
     fmtList (fun c => fmtTuple [fmtInt c.1, fmtInt c.2.1, fmtBool c.2.2, fmtNat p.fileTrack]) p.keySigs,
     fmtList (fun c => fmtTuple [fmtInt c.1, fmtOptNat c.2, fmtNat p.fileTrack]) p.metas]
+
+/-- the loaded parts in seconds, numbered by `sanitize_track_numbers` (`none` if a part got no number) -/
+def sparts (ppq d : Nat) (m : Bool) (tracks : List Track) : Option (List SPart) :=
+  let kept := loadFile m tracks
+  let sec := secondsAt d (loaderTracks m tracks) ppq
+  (kept.zip ((loadNumbers kept).map partNumber)).mapM fun (t, j) => j.map fun j => toSPart sec j t
+
+def fmtSPartInt (p : SPart) : String :=
+  fmtTuple [
+    fmtList (fun (n : PNote) => fmtTuple [fmtNat n.pitch, fmtNat n.vel, fmtNat n.ch, fmtNat n.track]) p.notes,
+    fmtList (fun (c : PCtl) => fmtTuple [fmtNat c.num, fmtNat c.val, fmtNat c.ch, fmtNat c.track]) p.controls,
+    fmtList (fun (g : PProg) => fmtTuple [fmtNat g.prog, fmtNat g.ch, fmtNat g.track]) p.programs]
+
+def fmtSPartSec (p : SPart) : String :=
+  fmtTuple [
+    fmtList (fun (n : PNote) => fmtTuple [fmtRat n.on, fmtRat n.off]) p.notes,
+    fmtList (fun (c : PCtl) => fmtRat c.time) p.controls,
+    fmtList (fun (g : PProg) => fmtRat g.time) p.programs]
 
 def fmtPartSec (sec : Int → Rat) (p : RTrack) : String :=
   fmtTuple [
@@ -129,12 +152,23 @@ def handle (ts : List String) : String :=
       some (fmtTuple [fmtNat r.1, fmtList fmtTrack r.2])
   | "load" :: rest =>
     orErr <| (run pLoad rest).bind fun (ppq, _, m, tracks) =>
-      if ppq = 0 then none else some (fmtList fmtPartInt (loadFile m tracks).zipIdx)
+      if ppq = 0 then none else
+      let kept := loadFile m tracks
+      some (fmtList fmtPartInt (kept.zip (loadNumbers kept)))
   | "loadt" :: rest =>
     orErr <| (run pLoad rest).bind fun (ppq, d, m, tracks) =>
       if ppq = 0 then none else
       let sec := secondsAt d (loaderTracks m tracks) ppq
       some (fmtList (fmtPartSec sec) (loadFile m tracks))
+  | "sil" :: rest =>
+    -- load_performance(first_note_at_zero=True): integer view of all parts
+    orErr <| (run pLoad rest).bind fun (ppq, d, m, tracks) =>
+      if ppq = 0 then none else
+      (sparts ppq d m tracks).map fun ps => fmtList fmtSPartInt (loadPerformance true ps)
+  | "silt" :: rest =>
+    orErr <| (run pLoad rest).bind fun (ppq, d, m, tracks) =>
+      if ppq = 0 then none else
+      (sparts ppq d m tracks).map fun ps => fmtList fmtSPartSec (loadPerformance true ps)
   | "tempi" :: rest =>
     orErr <| (run pLoad rest).bind fun (_, d, m, tracks) =>
       some (fmtList (fun (p : Int × Nat) => fmtTuple [fmtInt p.1, fmtNat p.2]) (tempoList d (loaderTracks m tracks)))
